@@ -30,6 +30,32 @@ HAND = [
     "module default_db { let xx <[{a = int, x = int}]>\n let yy <[{a = int, x = int}]> }\nfrom xx | intersect yy | group this (take 1)",
 ]
 
+def sort_family():
+    """relations whose order is carried from CTE to CTE (spec/SortInfer.tla): a sorted prefix - let-bound or inline - with the
+    sort key selected, hidden or computed, read once or twice, x consumers that take, re-sort, join, group, aggregate, append"""
+    out = []
+    sorts = ["a", "-b", "(a + b)", "a, -k"]
+    projs = ["k, a", "k", "k, a, b"]
+    cons = ["take 3", "filter k > 1 | take 2..3", "join u (==k) | take 5", "join y = x (==k) | take 5", "sort k | take 2",
+            "group k (take 1)", "derive {r = k + 1} | take 2 | filter r > 1", "aggregate {n = count this}", "append (from x) | take 3",
+            "select {k}", "take 4 | sort {-k} | take 2", "group k (sort a | take 1) | take 3", "join side:left u (==k) | sort {u.c} | take 2",
+            "take 5 | join u (==k) | take 2"]
+    n = 0
+    for s in sorts:
+        for p in projs:
+            if ("a" in s and "a" not in p and "(" not in s) and False:
+                continue
+            for c in cons:
+                n += 1
+                out.append({"id": f"sf{n}l", "src": f"let x = (from t | sort {{{s}}} | select {{{p}}})\nfrom x | {c}"})
+                if "x" not in c.replace("(==k)", ""):
+                    out.append({"id": f"sf{n}i", "src": f"from t | sort {{{s}}} | select {{{p}}} | {c}"})
+            n += 1
+            out.append({"id": f"sf{n}r", "src": f"let x = (from t | sort {{{s}}} | select {{{p}}})\nfrom u | join x (==k) | take 3"})
+            n += 1
+            out.append({"id": f"sf{n}t", "src": f"let x = (from t | sort {{{s}}} | take 4 | select {{{p}}})\nlet y = (from x | filter k > 0)\nfrom y | join z = y (==k) | take 2"})
+    return out
+
 def _kinds(rec):
     e = rec["event"]
     if e["ev"] != "Split" or not rec.get("pair") or rec["pair"][0] == 0:
@@ -43,7 +69,7 @@ def relevant(pid, rec):
     if pid == "C01":
         return True
     if pid == "C03":
-        return v in ("assembly-limit", "assembly-offset", "assembly-order-by") or (v == "clause-order" and bool({"Take", "Sort"} & set(ks)))
+        return v.startswith("sortinfer-") or v in ("assembly-limit", "assembly-offset", "assembly-order-by") or (v == "clause-order" and bool({"Take", "Sort"} & set(ks)))
     if pid == "C04":
         e = rec["event"]
         win = e["ev"] == "Split" and any(t["cx"] == "windowed" for t in e["atomic"])
@@ -77,6 +103,17 @@ def phase(rep, pid, tier, sources=None):
             gen_ = [s for s in sources if s["id"].startswith("g")]
             sources = rnd.sample(fixed, min(len(fixed), 700)) + rnd.sample(gen_, min(len(gen_), 900))
     sources = sources + [{"id": f"hand{i}", "src": x} for i, x in enumerate(HAND)] + [dict(x, id="self-" + x["id"]) for x in B.SELF_SRCS]
+    # sort inference (spec/SortInfer.tla): the design-level check belongs to C03; its program family also to C01
+    smc = None
+    if pid == "C03":
+        smc = B.sort_mc(tier)
+        if not smc["holds"]:
+            rep.violation({"property": pid, "kind": "sortinfer-design", "tlc": smc.get("error_text", "")[:6000],
+                           "explanation": "SortMC: the sort-inference machine of spec/SortInfer.tla post-processes a query of the bound into one whose sorts do not satisfy the Verdict against the Meaning of the query"},
+                          {"what": "sortinfer-design", "tlc": smc.get("error_text", "")})
+    if pid in ("C01", "C03"):
+        fam = sort_family()
+        sources = sources + (fam if tier == "thorough" else rnd.sample(fam, 150))
     r2 = B.run(d, sources, dialects="all", tag="src")
     nrel = 0
     for r in (r1, r2):
@@ -103,8 +140,11 @@ def phase(rep, pid, tier, sources=None):
                          "machine_as_found_violates": info.get("unrepaired_machine_violates")},
         "replay_of_model_pipelines": None if r1 is None else {"pipelines": len(sample), "compilations": r1["compiled"] + r1["errors"] + r1["panics"], "splits": r1["splits"], "selects": r1["selects"], "drift": len(r1["drift"])},
         "programs": {"sources": len(sources), "dialects": 12, "compiled": r2["compiled"], "errors": r2["errors"], "panics": r2["panics"],
-                     "splits_validated": r2["splits"], "selects_validated": r2["selects"], "drift": len(r2["drift"])},
+                     "splits_validated": r2["splits"], "selects_validated": r2["selects"], "sort_inferences_validated": r2["posts"] + (r1["posts"] if r1 else 0),
+                     "drift": len(r2["drift"])},
+        "sort_inference_machine": None if smc is None else dict(smc, explanation="spec/SortInfer.tla transcribes postprocess::infer_sorts (the sorting carried through each atomic pipeline and from CTE to CTE, materialised in front of LIMIT / DISTINCT ON and at the end) as a machine and states what C03 means for the same compiled query; SortMC checks machine against meaning on every query of the bound; BackendTrace (event Post) checks the real pass against the meaning and compares it with the machine"),
         "rejections_relevant_here": nrel, "selftest": st,
         "explanation": "spec/Backend.tla transcribes anchor::split_off_back (is_split_required, get_requirements, can_materialize, Complexity) as a machine; BackendMC checks on every abstract pipeline of the bound that each SELECT it cuts out evaluates, in SQL's clause order and under SQL's nesting rules, to what its transforms mean in order; BackendTrace validates the same on the splits and SELECT assemblies the real back end performed (hook events), and compares each real split with the machine's"}}
     states = (info.get("distinct") or 0) + (r1["states"] if r1 else 0) + r2["states"]
-    return cov, states, (r1["splits"] + r1["selects"] if r1 else 0) + r2["splits"] + r2["selects"]
+    states += (smc or {}).get("states") or 0
+    return cov, states, (r1["splits"] + r1["selects"] + r1["posts"] if r1 else 0) + r2["splits"] + r2["selects"] + r2["posts"]
